@@ -655,21 +655,21 @@ bool GrothSKC::Verify_interactive
 				throw false;
 		
 		// check whether $f_1, \ldots, f_n, z \in\mathbb{Z}_q$
-		if (!(mpz_cmp(z, com->q) < 0))
+		if ((mpz_sgn(z) < 0) || !(mpz_cmp(z, com->q) < 0))
 			throw false;
 		for (size_t i = 0; i < f.size(); i++)
 		{
-			if (!(mpz_cmp(f[i], com->q) < 0))
+			if ((mpz_sgn(f[i]) < 0) || !(mpz_cmp(f[i], com->q) < 0))
 				throw false;
 		}
 		
 		// check whether $f_{\Delta_1}, \ldots, f_{\Delta_{n-1}}$
 		// and $z_{\Delta}$ are from $\mathbb{Z}_q$
-		if (!(mpz_cmp(z_Delta, com->q) < 0))
+		if ((mpz_sgn(z_Delta) < 0) || !(mpz_cmp(z_Delta, com->q) < 0))
 			throw false;
 		for (size_t i = 0; i < (f_Delta.size() - 1); i++)
 		{
-			if (!(mpz_cmp(f_Delta[i], com->q) < 0))
+			if ((mpz_sgn(f_Delta[i]) < 0) || !(mpz_cmp(f_Delta[i], com->q) < 0))
 				throw false;
 		}
 		
@@ -844,21 +844,21 @@ bool GrothSKC::Verify_interactive_publiccoin
 				throw false;
 		
 		// check whether $f_1, \ldots, f_n, z \in\mathbb{Z}_q$
-		if (!(mpz_cmp(z, com->q) < 0))
+		if ((mpz_sgn(z) < 0) || !(mpz_cmp(z, com->q) < 0))
 			throw false;
 		for (size_t i = 0; i < f.size(); i++)
 		{
-			if (!(mpz_cmp(f[i], com->q) < 0))
+			if ((mpz_sgn(f[i]) < 0) || !(mpz_cmp(f[i], com->q) < 0))
 				throw false;
 		}
 		
 		// check whether $f_{\Delta_1}, \ldots, f_{\Delta_{n-1}}$
 		// and $z_{\Delta}$ are from $\mathbb{Z}_q$
-		if (!(mpz_cmp(z_Delta, com->q) < 0))
+		if ((mpz_sgn(z_Delta) < 0) || !(mpz_cmp(z_Delta, com->q) < 0))
 			throw false;
 		for (size_t i = 0; i < (f_Delta.size() - 1); i++)
 		{
-			if (!(mpz_cmp(f_Delta[i], com->q) < 0))
+			if ((mpz_sgn(f_Delta[i]) < 0) || !(mpz_cmp(f_Delta[i], com->q) < 0))
 				throw false;
 		}
 		
@@ -1034,21 +1034,21 @@ bool GrothSKC::Verify_noninteractive
 				throw false;
 		
 		// check whether $f_1, \ldots, f_n, z \in\mathbb{Z}_q$
-		if (!(mpz_cmp(z, com->q) < 0))
+		if ((mpz_sgn(z) < 0) || !(mpz_cmp(z, com->q) < 0))
 			throw false;
 		for (size_t i = 0; i < f.size(); i++)
 		{
-			if (!(mpz_cmp(f[i], com->q) < 0))
+			if ((mpz_sgn(f[i]) < 0) || !(mpz_cmp(f[i], com->q) < 0))
 				throw false;
 		}
 		
 		// check whether $f_{\Delta_1}, \ldots, f_{\Delta_{n-1}}$
 		// and $z_{\Delta}$ are from $\mathbb{Z}_q$
-		if (!(mpz_cmp(z_Delta, com->q) < 0))
+		if ((mpz_sgn(z_Delta) < 0) || !(mpz_cmp(z_Delta, com->q) < 0))
 			throw false;
 		for (size_t i = 0; i < (f_Delta.size() - 1); i++)
 		{
-			if (!(mpz_cmp(f_Delta[i], com->q) < 0))
+			if ((mpz_sgn(f_Delta[i]) < 0) || !(mpz_cmp(f_Delta[i], com->q) < 0))
 				throw false;
 		}
 		
@@ -1221,21 +1221,21 @@ bool GrothSKC::Verify_interactive
 				throw false;
 		
 		// check whether $f_1, \ldots, f_n, z \in\mathbb{Z}_q$
-		if (!(mpz_cmp(z, com->q) < 0))
+		if ((mpz_sgn(z) < 0) || !(mpz_cmp(z, com->q) < 0))
 			throw false;
 		for (size_t i = 0; i < f.size(); i++)
 		{
-			if (!(mpz_cmp(f[i], com->q) < 0))
+			if ((mpz_sgn(f[i]) < 0) || !(mpz_cmp(f[i], com->q) < 0))
 				throw false;
 		}
 		
 		// check whether $f_{\Delta_1}, \ldots, f_{\Delta_{n-1}}$
 		// and $z_{\Delta}$ are from $\mathbb{Z}_q$
-		if (!(mpz_cmp(z_Delta, com->q) < 0))
+		if ((mpz_sgn(z_Delta) < 0) || !(mpz_cmp(z_Delta, com->q) < 0))
 			throw false;
 		for (size_t i = 0; i < (f_Delta.size() - 1); i++)
 		{
-			if (!(mpz_cmp(f_Delta[i], com->q) < 0))
+			if ((mpz_sgn(f_Delta[i]) < 0) || !(mpz_cmp(f_Delta[i], com->q) < 0))
 				throw false;
 		}
 		
@@ -1432,21 +1432,21 @@ bool GrothSKC::Verify_interactive_publiccoin
 				throw false;
 		
 		// check whether $f_1, \ldots, f_n, z \in\mathbb{Z}_q$
-		if (!(mpz_cmp(z, com->q) < 0))
+		if ((mpz_sgn(z) < 0) || !(mpz_cmp(z, com->q) < 0))
 			throw false;
 		for (size_t i = 0; i < f.size(); i++)
 		{
-			if (!(mpz_cmp(f[i], com->q) < 0))
+			if ((mpz_sgn(f[i]) < 0) || !(mpz_cmp(f[i], com->q) < 0))
 				throw false;
 		}
 		
 		// check whether $f_{\Delta_1}, \ldots, f_{\Delta_{n-1}}$
 		// and $z_{\Delta}$ are from $\mathbb{Z}_q$
-		if (!(mpz_cmp(z_Delta, com->q) < 0))
+		if ((mpz_sgn(z_Delta) < 0) || !(mpz_cmp(z_Delta, com->q) < 0))
 			throw false;
 		for (size_t i = 0; i < (f_Delta.size() - 1); i++)
 		{
-			if (!(mpz_cmp(f_Delta[i], com->q) < 0))
+			if ((mpz_sgn(f_Delta[i]) < 0) || !(mpz_cmp(f_Delta[i], com->q) < 0))
 				throw false;
 		}
 		
@@ -1643,21 +1643,21 @@ bool GrothSKC::Verify_noninteractive
 				throw false;
 		
 		// check whether $f_1, \ldots, f_n, z \in\mathbb{Z}_q$
-		if (!(mpz_cmp(z, com->q) < 0))
+		if ((mpz_sgn(z) < 0) || !(mpz_cmp(z, com->q) < 0))
 			throw false;
 		for (size_t i = 0; i < f.size(); i++)
 		{
-			if (!(mpz_cmp(f[i], com->q) < 0))
+			if ((mpz_sgn(f[i]) < 0) || !(mpz_cmp(f[i], com->q) < 0))
 				throw false;
 		}
 		
 		// check whether $f_{\Delta_1}, \ldots, f_{\Delta_{n-1}}$
 		// and $z_{\Delta}$ are from $\mathbb{Z}_q$
-		if (!(mpz_cmp(z_Delta, com->q) < 0))
+		if ((mpz_sgn(z_Delta) < 0) || !(mpz_cmp(z_Delta, com->q) < 0))
 			throw false;
 		for (size_t i = 0; i < (f_Delta.size() - 1); i++)
 		{
-			if (!(mpz_cmp(f_Delta[i], com->q) < 0))
+			if ((mpz_sgn(f_Delta[i]) < 0) || !(mpz_cmp(f_Delta[i], com->q) < 0))
 				throw false;
 		}
 		
@@ -2407,7 +2407,7 @@ bool GrothVSSHE::Verify_interactive
 		// check whether $2^{\ell_e} \le f_1,\ldots,f_n < q$
 		for (size_t i = 0; i < f.size(); i++)
 		{
-			if ((mpz_sizeinbase(f[i], 2L) < l_e) || 
+			if ((mpz_sgn(f[i]) <= 0) || (mpz_sizeinbase(f[i], 2L) < l_e) || 
 				(mpz_cmp(f[i], com->q) >= 0))
 					throw false;
 		}
@@ -2580,7 +2580,7 @@ bool GrothVSSHE::Verify_interactive_publiccoin
 		// check whether $2^{\ell_e} \le f_1,\ldots,f_n < q$
 		for (size_t i = 0; i < f.size(); i++)
 		{
-			if ((mpz_sizeinbase(f[i], 2L) < l_e) || 
+			if ((mpz_sgn(f[i]) <= 0) || (mpz_sizeinbase(f[i], 2L) < l_e) || 
 				(mpz_cmp(f[i], com->q) >= 0))
 					throw false;
 		}
@@ -2758,7 +2758,7 @@ bool GrothVSSHE::Verify_noninteractive
 		// check whether $2^{\ell_e} \le f_1,\ldots,f_n < q$
 		for (size_t i = 0; i < f.size(); i++)
 		{
-			if ((mpz_sizeinbase(f[i], 2L) < l_e_nizk) || 
+			if ((mpz_sgn(f[i]) <= 0) || (mpz_sizeinbase(f[i], 2L) < l_e_nizk) || 
 				(mpz_cmp(f[i], com->q) >= 0))
 					throw false;
 		}
